@@ -151,6 +151,22 @@ def run(chk, repo, tier):
                         ratio_ok = ratio_ok and d.get(('sym', 'pixelscale'), 0) == -e_ext and d.get(('sym', 'oversample'), 0) == e_ext
                     chk.ob('C19-e', 'U-ratio', key, f'extent enters as ({ext}/pixelscale)*oversample [{tag}]', ratio_ok,
                            f'argument {fmt(arg)[:200]}', f.loc(p.node))
+            if key == 'detector.pixel':
+                # the pixel aperture's transfer function itself, sign included: sinc(f_row*os) * sinc(f_col*os) at every
+                # frequency (its modulus is a different filter: the side lobes of the sinc are negative from oversample 3 on)
+                from ..elem import ElemEval, Unsupported
+                i_, j_ = S('@i'), S('@j')
+                okk, det_k = None, ''
+                try:
+                    el = ElemEval(Shapes(decl)).at(kernel, (i_, j_))
+                    osf = S('oversample')
+                    want = nf.app('sinc', nf.app('fftfreq_at', ish[0], i_) * osf) * nf.app('sinc', nf.app('fftfreq_at', ish[1], j_) * osf)
+                    okk = el == want
+                    det_k = f'kernel[i, j] = {fmt(el)[:200]}'
+                except Unsupported as ex:
+                    det_k = f'undecided: kernel not understood element-wise ({ex})'
+                chk.ob('C19-e', 'N-const', key, 'pixel transfer function sinc(f_row*oversample)*sinc(f_col*oversample), sign included', okk,
+                       det_k, f.loc(p.node))
             if key == 'convolvable.jitter':
                 tfa = tfs[0]
                 arg = tfa[2][0]
